@@ -278,10 +278,17 @@ def eval_cases(case_dir, timeout=1200):
 
 
 def load_known_findings():
+    """known_findings.json (+ per-property findings/*.json while being developed in parallel)."""
+    out = []
     p = os.path.join(ROOT, "known_findings.json")
-    if not os.path.exists(p):
-        return []
-    return json.load(open(p)).get("findings", [])
+    if os.path.exists(p):
+        out += json.load(open(p)).get("findings", [])
+    for f in sorted(glob.glob(os.path.join(ROOT, "findings", "*.json"))):
+        try:
+            out += json.load(open(f)).get("findings", [])
+        except Exception:
+            pass
+    return out
 
 
 class Ctx:
